@@ -473,7 +473,7 @@ func manualTypeStrings(dialect string) []string {
 	var out []string
 	if dialect == "sqlite" {
 		// type names SQLite accepts and Atlas keeps as they are written (user-defined types).
-		return []string{"GEOMETRY", "Point", "VARCHAR2(10)", "my_type", "Money(10, 2)"}
+		return []string{"GEOMETRY", "Point", "VARCHAR2(10)", "my_type", "Money(10, 2)", "()", "(10)"}
 	}
 	if dialect != "postgres" {
 		return nil
@@ -579,7 +579,14 @@ func Run(r *report.Run) {
 			continue
 		}
 		cd := codecOf(c.Dialect)
-		t, err := cd.parse(c.Type)
+		t, err := func() (t schema.Type, err error) {
+			defer func() {
+				if p := recover(); p != nil {
+					err = fmt.Errorf("panic: %v", p) // reported by the type case itself
+				}
+			}()
+			return cd.parse(c.Type)
+		}()
 		if err != nil {
 			continue
 		}
